@@ -27,7 +27,7 @@ TInit == /\ Blank /\ cfg = [id |-> 0] /\ tab = <<>> /\ l = 1 /\ rng = <<>> /\ na
          /\ meta = [ev |-> "reset", mid |-> FALSE, k |-> 0]
          /\ Trace[1].ev = "reset"
 
-TReset(r) == /\ phase' = "start" /\ eff' = [err |-> TRUE] /\ skip' = {} /\ out' = <<>> /\ grp' = 1 /\ pos' = 1 /\ ver' = <<>>
+TReset(r) == /\ phase' = "start" /\ eff' = [err |-> TRUE] /\ skip' = {} /\ out' = <<>> /\ grp' = 1 /\ pos' = 1 /\ ver' = <<>> /\ sub' = <<>>
              /\ cfg' = [id |-> r.cfg] /\ tab' = <<>> /\ rng' = <<>> /\ nans' = NoAns
              /\ meta' = [ev |-> "reset", mid |-> FALSE, k |-> 0]
 TQuery(r) == /\ cfg' = [id |-> r.cfg, plan |-> PolOf(r.pol[1]), sub |-> PolOf(r.pol[2]), admin |-> PolOf(r.pol[3])]
@@ -36,11 +36,11 @@ TQuery(r) == /\ cfg' = [id |-> r.cfg, plan |-> PolOf(r.pol[1]), sub |-> PolOf(r.
              /\ out' = r.list
              /\ ver' = r.ver
              /\ phase' = IF r.panic THEN "panic" ELSE IF r.err THEN "err" ELSE "verified"
-             /\ skip' = {} /\ grp' = 1 /\ pos' = 1
+             /\ skip' = {} /\ grp' = 1 /\ pos' = 1 /\ sub' = <<>>
              /\ rng' = r.rng
              /\ nans' = [l |-> Len(r.lists), v |-> Len(r.vers), e |-> Len(r.effs), h |-> 1]
              /\ meta' = [ev |-> "q", mid |-> r.mid, k |-> r.k]
-TBlock(r) == /\ UNCHANGED <<cfg, tab, eff, out, ver, skip, grp, pos, rng>>
+TBlock(r) == /\ UNCHANGED <<cfg, tab, eff, out, ver, skip, grp, pos, rng, sub>>
              /\ phase' = "block"
              /\ nans' = [l |-> 1, v |-> 1, e |-> 1, h |-> Cardinality(ToSet(r.digs))]
              /\ meta' = [ev |-> "blk", mid |-> FALSE, k |-> 0]
